@@ -272,7 +272,11 @@ Inductive tbody :=
 | TOp (o : op)                 (* AddLicence / Register / Auth *)
 | TStatus (creator : key).     (* MsgAddStatusUpdate: carries metadata, has no effect on this state *)
 
-Record tmsg := { tm_signers : list addr; tm_body : tbody }.
+(** [tm_nest]: the message sits inside that many authz.MsgExec, each with the message's (single)
+    signer as grantee — x/authz then runs it without any grant.  The decorator flattens the nesting
+    and checks nested messages like top-level ones; a transaction that nests deeper than
+    maxNestedMsgDepth is refused as a whole. *)
+Record tmsg := { tm_signers : list addr; tm_nest : Z; tm_body : tbody }.
 
 Definition tm_creator (b : tbody) : option key :=
   match b with
@@ -298,11 +302,15 @@ Definition authorised (s : state) (m : tmsg) : outcome :=
     else Err EUnauthorized
   end.
 
-Fixpoint ante (s : state) (ms : list tmsg) : outcome :=
+Fixpoint ante_msgs (s : state) (ms : list tmsg) : outcome :=
   match ms with
   | [] => Ok
-  | m :: r => match authorised s m with Ok => ante s r | e => e end
+  | m :: r => match authorised s m with Ok => ante_msgs s r | e => e end
   end.
+
+Definition ante (s : state) (ms : list tmsg) : outcome :=
+  if existsb (fun m => Gen.C18.max_nested_depth <? tm_nest m) ms then Err EUnauthorized   (* flattenMsgs refuses *)
+  else ante_msgs s ms.
 
 Definition body_step (s : state) (b : tbody) : state * outcome :=
   match b with
